@@ -76,7 +76,7 @@ func TestVerifMute(t *testing.T) {
 			}
 			ich := make(chan string, 16)
 			och := make(chan CLine, 1024) /* as deep as the program's */
-			s, cleanup, err := New(ich, och, "> ", true, nil, "")
+			s, cleanup, err := New(ich, och, "> ", true, func() ([]byte, error) { return []byte("<J>"), nil }, "verif-source")
 			if nil != err {
 				fail = err.Error()
 				return
@@ -104,6 +104,8 @@ func TestVerifMute(t *testing.T) {
 					och <- CLine{Color: ColorGreen, Line: fmt.Sprintf("<S%d>", k)}
 				case "l":
 					go s.Logf(ColorRed, false, "<S%d>", k)
+				case "j": /* Ctrl+J: print locally what Ctrl+I would send - a status printout, not shell output */
+					s.t.ControlCharacterCallback(0x0a)
 				case "b":
 					/* A backlog: while the terminal is busy (write lock held) a status line, a shell chunk and another
 					status line pile up in the operator channel; then the terminal catches up. */
@@ -117,7 +119,7 @@ func TestVerifMute(t *testing.T) {
 				after := newOut()
 				cls := func(x string) []string {
 					var r []string
-					for _, m := range []string{"Unmuting", "Already muted", "Muting until", fmt.Sprintf("<Q%d>", k), fmt.Sprintf("<P%d>", k), fmt.Sprintf("<S%d>", k)} {
+					for _, m := range []string{"Unmuting", "Already muted", "Muting until", "<J>", fmt.Sprintf("<Q%d>", k), fmt.Sprintf("<P%d>", k), fmt.Sprintf("<S%d>", k)} {
 						for n := strings.Count(x, m); n > 0; n-- {
 							r = append(r, m)
 						}
